@@ -101,7 +101,40 @@ def parseOp (ws : List String) : Option Op :=
     | _, _ => none
   | _ => none
 
+/-- `fund u which amt <op…>`: a message that takes no funds (collect / setfees / setcol) sent with
+    coins of native asset `which` attached. On the model this is TWO operations of the history — the
+    donation and then the message — or none when either fails (the transaction is atomic). -/
+def fundLine (cv : Curve) (s : St) (u w a : Nat) (inner : List String) : St × String :=
+  let native := if w == 0 then s.x0.native else s.x1.native
+  let allowed := match inner with
+    | "collect" :: _ => true
+    | "setfees" :: _ => true
+    | "setcol" :: _ => true
+    | _ => false
+  let senderOk := match inner with
+    | _ :: who :: _ => who == "o" || who == toString u || who == s!"u{u}"
+    | _ => false
+  match parseOp inner with
+  | none => (s, "bad-op")
+  | some op =>
+    if w ≥ 2 || !native || !allowed || !senderOk || u ≥ s.users.length then (s, "bad-op")
+    else
+      match step cv s (.donate u w a) with
+      | .ok s1 =>
+        match step cv s1 op with
+        | .ok s' => (s', "ok " ++ obs s')
+        | .err => (s, "err " ++ obs s)
+        | .panic => (s, "panic " ++ obs s)
+      | .err => (s, "err " ++ obs s)
+      | .panic => (s, "panic " ++ obs s)
+
 def opLine (cv : Curve) (s : St) (ws : List String) : St × String :=
+  match ws with
+  | "fund" :: u :: w :: a :: inner =>
+    match u.toNat?, w.toNat?, a.toNat? with
+    | some u, some w, some a => fundLine cv s u w a inner
+    | _, _, _ => (s, "bad-op")
+  | _ =>
   match parseOp ws with
   | none => (s, "bad-op")
   | some op =>
